@@ -64,7 +64,7 @@ FlagSetOK(F) == F \subseteq FlagNames /\ Cardinality(F \cap {"u", "uu", "uuu"}) 
 NoGlob == [ent |-> "", neg |-> FALSE]
 Globs  == {NoGlob} \cup {[ent |-> e, neg |-> n] : e \in {"f", "g", "h"}, n \in BOOLEAN}
                    \cup {[ent |-> "d", neg |-> TRUE]}
-TypeSel == {"none", "t", "T", "tg", "Tg"}       \* --type-add 'x:f' (tg, Tg: 'x:g') with -t x / -T x
+TypeSel == {"none", "t", "T", "tg", "Tg", "th", "Th"}   \* --type-add 'x:f' (tg, Tg: 'x:g'; th, Th: 'x:.h', the hidden file) with -t x / -T x
 Depths  == {-1, 0, 1, 2}             \* -1: no --max-depth
 
 \* search roots: what is named on the command line (cwd is always P/root)
@@ -144,10 +144,11 @@ Override(s, e) ==
 
 \* --type-add 'x:f': -t x selects f (every other file is deselected), -T x deselects f
 \* (tg / Tg: the same with --type-add 'x:g', a file one level down: type selection never applies to the directory d)
-TypeTarget(s) == IF s.types \in {"tg", "Tg"} THEN "g" ELSE "f"
+\* (th / Th: 'x:.h' - a selected type whitelists the hidden file like an ignore-file whitelist does: "types > hidden")
+TypeTarget(s) == IF s.types \in {"tg", "Tg"} THEN "g" ELSE IF s.types \in {"th", "Th"} THEN "h" ELSE "f"
 TypeAnswer(s, e) ==
   IF IsDir(e) \/ s.types = "none" THEN "none"
-  ELSE IF s.types \in {"t", "tg"} THEN (IF e = TypeTarget(s) THEN "white" ELSE "ignore")
+  ELSE IF s.types \in {"t", "tg", "th"} THEN (IF e = TypeTarget(s) THEN "white" ELSE "ignore")
   ELSE (IF e = TypeTarget(s) THEN "ignore" ELSE "none")
 
 Hidden(e) == e = "h"
